@@ -37,6 +37,7 @@ pub enum Plan {
     Handover(super::c10_handover::HandoverPlan),
     SoftStop(super::c10_softstop::SoftStopPlan),
     Cluster(super::c10_cluster::ClusterPlanC10),
+    Crash(super::c10_crash::CrashPlan),
 }
 
 fn gen_addr(rng: &mut Prng, style: u64, i: usize) -> SocketAddr {
@@ -169,7 +170,12 @@ impl Property for C10 {
         let mut rng = Prng::derive(seed, "c10/tier");
         let f = rng.below(4);
         // one plan in eight: the real main process orchestrates the upgrade of a real worker (c10_cluster.rs)
-        if rng.below(8) == 0 { return serde_json::to_value(Plan::Cluster(super::c10_cluster::generate(seed, tier))).unwrap(); }
+        match rng.below(16) {
+            0 | 1 => return serde_json::to_value(Plan::Cluster(super::c10_cluster::generate(seed, tier))).unwrap(),
+            // one plan in sixteen: the worker crashes and the real main process restarts one (c10_crash.rs)
+            2 => return serde_json::to_value(Plan::Crash(super::c10_crash::generate(seed, tier))).unwrap(),
+            _ => {}
+        }
         if f == 3 { return serde_json::to_value(Plan::SoftStop(super::c10_softstop::generate(seed, tier))).unwrap(); }
         if f == 0 { serde_json::to_value(Plan::Codec(generate_codec(seed, tier))).unwrap() } else { serde_json::to_value(Plan::Handover(super::c10_handover::generate(seed, tier))).unwrap() }
     }
@@ -179,6 +185,7 @@ impl Property for C10 {
             Ok(Plan::Handover(p)) => super::c10_handover::run(&p, false).0,
             Ok(Plan::SoftStop(p)) => super::c10_softstop::run(&p, false).0,
             Ok(Plan::Cluster(p)) => super::c10_cluster::run(&p, false).0,
+            Ok(Plan::Crash(p)) => super::c10_crash::run(&p, false).0,
             Err(e) => RunReport { harness_error: Some(format!("bad plan: {e}")), ..Default::default() },
         }
     }
@@ -202,6 +209,7 @@ impl Property for C10 {
             Ok(Plan::Handover(p)) => super::c10_handover::shrink(&p).into_iter().map(|q| serde_json::to_value(Plan::Handover(q)).unwrap()).collect(),
             Ok(Plan::SoftStop(p)) => super::c10_softstop::shrink(&p).into_iter().map(|q| serde_json::to_value(Plan::SoftStop(q)).unwrap()).collect(),
             Ok(Plan::Cluster(p)) => super::c10_cluster::shrink(&p).into_iter().map(|q| serde_json::to_value(Plan::Cluster(q)).unwrap()).collect(),
+            Ok(Plan::Crash(p)) => super::c10_crash::shrink(&p).into_iter().map(|q| serde_json::to_value(Plan::Crash(q)).unwrap()).collect(),
             _ => vec![],
         }
     }
@@ -210,6 +218,7 @@ impl Property for C10 {
             Ok(Plan::Handover(p)) => super::c10_handover::run(&p, true).1,
             Ok(Plan::SoftStop(p)) => super::c10_softstop::run(&p, true).1,
             Ok(Plan::Cluster(p)) => super::c10_cluster::run(&p, true).1,
+            Ok(Plan::Crash(p)) => super::c10_crash::run(&p, true).1,
             Ok(Plan::Codec(p)) => serde_json::to_string_pretty(&run_codec(&p)).unwrap(),
             Err(e) => e.to_string(),
         }
